@@ -212,14 +212,21 @@ def shard_async(sh: Shard, regime, cases, seed, wseed):
     from vlib.rig import SpaRig
 
     r = rng("C01", seed, wseed, regime)
-    w = World(r, regime, max_iter=8_000_000, wall_cap=900)
+    w = World(r, "B", max_iter=8_000_000, wall_cap=900)
     try:
         rig = SpaRig(w)
 
         async def main():
             if not await rig.connect():
-                sh.inconc("rig could not connect")
+                names = [e[0].name for e in rig.events]
+                if "CONNECTION_INITIAL_DATA_BLOCK_REQUEST" in names and "CONNECTION_PROTOCOL_RETRY_COUNT_EXCEEDED" in names:
+                    # the handshake's own full-block transfer failed on a fault-free network
+                    sh.evaluations += 1
+                    sh.violation("C01:async:fault-free-failed:handshake", "the initial full-block transfer (start 0, length 1024) failed on a fault-free network", {"events": names[-6:], "regime": regime})
+                else:
+                    sh.inconc("rig could not connect")
                 return
+            w.set_regime(regime)
             for case in cases:
                 cr = rng("C01case", case["seed"])
                 await one_case(sh, rig, case, cr, regime)
